@@ -70,7 +70,7 @@ def relational():
 
 
 TQ = [("contracts.threequarters", "threequarters")]
-COVER = [("contracts.covering", "decreasing_subroutine"), ("contracts.covering", "cover_decreasing"), ("contracts.covering", "twothirds")]
+COVER = [("contracts.covering", "decreasing_subroutine"), ("contracts.covering", "cover_decreasing"), ("contracts.covering", "twothirds"), ("contracts.covering", "threequarters_t1")]
 
 
 def _real_outcome(contract, w):
